@@ -269,6 +269,29 @@ pub(crate) fn blend<S: Sample>(
                 let base_frame_region =
                     output_image_region.translate(-base_frame_header.x0, -base_frame_header.y0);
 
+                // A reference frame smaller than the canvas (e.g. a cropped reference-only frame)
+                // cannot be a blending source.
+                let alpha_covers = alpha_idx.is_none_or(|alpha_idx| {
+                    base_grid.regions_and_shifts()[alpha_idx + color_channels]
+                        .0
+                        .contains(base_frame_region)
+                });
+                if !base_grid.regions_and_shifts()[idx]
+                    .0
+                    .contains(base_frame_region)
+                    || !alpha_covers
+                {
+                    tracing::error!(
+                        ref_idx,
+                        ?base_frame_region,
+                        "Blending source does not cover the image region"
+                    );
+                    return Err(jxl_bitstream::Error::ValidationFailed(
+                        "blending source does not cover the image region",
+                    )
+                    .into());
+                }
+
                 target_grid = if can_overwrite {
                     if let Some(mut image) = base_grid_render.try_take_blended() {
                         let buffer = &mut image.buffer_mut()[idx];
